@@ -358,3 +358,22 @@ package ct
 //@ ensures [a-key-comes-without-error-and-is-well-formed] result1 == nil ==> validKey(result0)
 //@ at d assert [decodes-the-given-string] d.s == b64PubKey
 //@ at pp assert [parses-the-decoded-bytes] pp.derBytes == d.res0
+
+// C04 / C12: a SHA-256 hash travels in JSON as the base64 of its 32 bytes; anything that is not a JSON
+// string, not base64 or not 32 bytes long is refused and the hash is then whatever the decoder left.
+//@ func (*SHA256Hash).UnmarshalJSON
+//@ props C04 C12 C19
+//@ site json.Unmarshal#1 as ju
+//@ site FromBase64String#1 as fb
+//@ requires s != nil
+//@ modifies pointee(s)
+//@ ensures [must-be-a-json-string] ju.res != nil ==> result != nil && !fb.called
+//@ ensures [otherwise-the-base64-decoders-verdict] ju.res == nil ==> fb.called && result == fb.res
+//@ at fb assert [decodes-the-json-string-into-this-hash] fb.s == s && fb.b64 == after(ju, content)
+
+//@ func (SHA256Hash).MarshalJSON
+//@ props C04 C12 C19
+//@ pure
+//@ site Base64String#1 as b
+//@ ensures [never-fails] result1 == nil
+//@ ensures [the-base64-text-between-two-quotes-by-length] b.called && len(result0) == len(b.res) + 2
